@@ -300,6 +300,21 @@ fn eval(a: &[String]) -> String {
       let mut out = "NONE".to_string();
       if v.len() > 0 && v[0] == 1 {
         // instant view: day pillar rolls at 23:00, hour pillar by Five Rats on the rolled day pillar
+        // the Lichun instant itself and the seconds around it (the year pillar turns AT the instant), 2019..2026
+        for y in 2019isize..=2026 {
+          let z = SolarTerm::from_index(y, 3).get_julian_day().get_solar_time();
+          for dt in [-1isize, 0, 1] {
+            let st = z.next(dt);
+            let py = if st.is_before(z) { y - 1 } else { y };
+            let v = st.get_sixty_cycle_hour();
+            let exp_m = ((((y - 4).rem_euclid(10) % 5) * 2 + 2) as i64 + if st.is_before(z) { -1 } else { 0 }).rem_euclid(10);
+            if v.get_year().get_index() as isize != (py - 4).rem_euclid(60) || v.get_month().get_heaven_stem().get_index() as i64 != exp_m {
+              out = format!("{}-{}-{} {}:{}:{} ({} s from the Lichun instant): year pillar {} (expected {}), month stem {} (expected {})", st.get_year(), st.get_month(), st.get_day(), st.get_hour(), st.get_minute(),
+                            st.get_second(), dt, v.get_year().get_index(), (py - 4).rem_euclid(60), v.get_month().get_heaven_stem().get_index(), exp_m);
+              return out;
+            }
+          }
+        }
         let mut day = SolarDay::from_ymd(2024, 1, 1);
         'inst: for _ in 0..130 {
           let dp = (dn(&day) + 49).rem_euclid(60);
